@@ -10,7 +10,10 @@ sed -i "$EXPR" $WT/$FILE
 if git -C $WT diff --quiet; then echo "MUTANT $NAME: sed did not change anything"; exit 2; fi
 git -C $WT diff | grep '^[-+]' | grep -v '^+++\|^---' | head -6
 sed "s#/repo/#$WT/#g" /verif/.work/C02.quick/overlay.json > /tmp/ov-mut.json
+rm -f /tmp/raftx-mut.bin
 (cd $WT && go test -c -tags verif -vet=off -overlay /tmp/ov-mut.json -modfile /verif/.work/C02.quick/go.mod -o /tmp/raftx-mut.bin ./internal/raft 2>&1 | head -20)
+if [ ! -x /tmp/raftx-mut.bin ]; then echo "MUTANT $NAME: DOES NOT COMPILE"; git -C $WT checkout -- .; exit 3; fi
+rm -f /tmp/mut_*.json
 N=$5; [ -z "$N" ] && N=6
 for i in $(seq 0 $((N-1))); do
  ( export VERIF_PART=$PART VERIF_SHARD=$i/$N VERIF_DEADLINE_S=${DL:-90} VERIF_OUT=/tmp/mut_$i.json GOMAXPROCS=3; rm -f /tmp/mut_$i.json; cd /tmp && /tmp/raftx-mut.bin -test.run '^TestVerifRaftx$' -test.timeout 0 > /tmp/mut_$i.log 2>&1 ) &
